@@ -500,7 +500,7 @@ Proof. intros ->. reflexivity. Qed.
    once if the pair has annotations {a, b}, does not overlap and has gap d, and never otherwise *)
 Lemma sp_pair_count maxd a b d x y :
   start_of x < end_of x -> start_of y < end_of y -> Z.of_nat d < maxd ->
-  countb (ev3_eqb a b d) (sp_body skip_now maxd true x y)
+  countb (ev3_eqb a b d) (sp_body Z.sub skip_now maxd true x y)
   = if umatch a b (ann_of x) (ann_of y)
     then (if negb (overlapping x y) && (gap x y =? Z.of_nat d) then 1 else 0) else 0.
 Proof.
@@ -607,7 +607,7 @@ Proof.
   set (nE := Z.to_nat (largest (map fst X) + 1)).
   assert (Hex : forall r, In r X -> 0 <= fst r < Z.of_nat nE).
   { intros r Hr. apply Hrow in Hr. unfold nE. lia. }
-  set (evs := flat_map (pair_events (sp_body skip_now maxd true)) (buckets nE X)).
+  set (evs := flat_map (pair_events (sp_body Z.sub skip_now maxd true)) (buckets nE X)).
   assert (Hin : forall ev, In ev evs ->
             0 <= fst (fst ev) < nA /\ 0 <= snd (fst ev) < nA /\ 0 <= snd ev < maxd).
   { apply Forall_forall. apply events_Forall; [exact Hex|]. intros r1 r2 H1 H2.
@@ -649,6 +649,11 @@ Proof. exists (CSpacing [(0, (0, 0, 5)); (0, (1, 3, 8))] 10 true None). vm_compu
 
 Lemma spacing_v0_refuted_boundary : exists c, spec_ok c (model_v0 c) = false.
 Proof. exists (CSpacing [(0, (0, 0, 5)); (0, (1, 15, 18))] 10 true None). vm_compute. reflexivity. Qed.
+
+(* a uint8 table before commit dc1e643: the gap -2 of two overlapping spans wraps to 254 and
+   is counted when max_distance = 255 *)
+Lemma spacing_u8_refuted_lemma : exists c, spec_ok c (model_u8 c) = false.
+Proof. exists (CSpacing [(0, (0, 0, 5)); (0, (1, 3, 8))] 255 true None). vm_compute. reflexivity. Qed.
 
 (* ================================================================================= *)
 (* F. k-mers: the positional code is a bijection                                       *)
